@@ -451,6 +451,25 @@ def r1_tables_agree(ctx):
                   f"fit property '{key}' is written with `{wk}` but read "
                   f"back with `{rk}`: settings/parameters differ after "
                   "loading")
+    # a joined list is split at the separator it was joined with
+    wseps = [(c, c.func.value.value) for c in ast.walk(wloop)
+             if isinstance(c, ast.Call) and isinstance(
+                 c.func, ast.Attribute) and c.func.attr == "join"
+             and isinstance(c.func.value, ast.Constant)
+             and isinstance(c.func.value.value, str)]
+    rseps = {c.args[0].value for c in ast.walk(rloop)
+             if isinstance(c, ast.Call) and isinstance(
+                 c.func, ast.Attribute) and c.func.attr == "split"
+             and len(c.args) == 1 and isinstance(c.args[0], ast.Constant)
+             and isinstance(c.args[0].value, str)}
+    if rseps:
+        for c, sep in wseps:
+            ctx.check(sep in rseps, c,
+                      f"list joined with {sep!r} is split with it",
+                      f"a list setting is written joined with {sep!r} but "
+                      f"the reader splits at {sorted(rseps)}: the entries "
+                      "come back with stray characters (step names are no "
+                      "longer preprocessing identifiers)")
     # prefix agreement
     wp = [norm(s.targets[0].slice) for s in ast.walk(wloop)
           if isinstance(s, ast.Assign) and isinstance(
